@@ -59,33 +59,43 @@ def class_chunk(case: dict, c: int, prefix: str = "", canonical: bool = False, g
         body = ["    pass"]
     lines = [head, *body]
     if guarded:  # importable even when CPython refuses the class statement (inspection only)
-        lines = ["try:", *("    " + ln for ln in lines), "except (TypeError, NameError):", "    pass"]
+        lines = ["try:", *("    " + ln for ln in lines), "except (TypeError, NameError, AttributeError):", "    pass"]
     return "\n".join(lines) + "\n"
 
 
-def import_lines(case: dict, module: str, prefix: str = "") -> list:
-    """Import statements of `module` ('ma' / 'mb' / 'mc') under the layout."""
+def import_lines(case: dict, module: str, prefix: str = "", guarded: bool = False) -> list:
+    """Import statements of `module` ('ma' / 'mb' / 'mc' / 'md') under the layout."""
     layout, n = case["layout"], case["n"]
     if layout == "one":
         return []
     mods = case["mods"]
-    if module in ("mc", "md"):  # the re-exporting modules of layouts "chain" / "chain2": one import per class used across modules
+
+    def from_import(source: str, names: list) -> list:
+        if not guarded:
+            return [f"from {source} import " + ", ".join(names)]
+        out = []  # inspection: a class CPython refused does not exist in its module; the importer must still import
+        for name in names:
+            out += ["try:", f"    from {source} import {name}", "except ImportError:", "    pass"]
+        return out
+
+    if module in ("mc", "md"):  # the re-exporting modules of layouts "chain" / "chain2": the classes used across modules
         needed = sorted({b for c in range(1, n + 1) for b in case["bases"][c - 1] if mods[b - 1] != mods[c - 1]})
-        if module == "md":
-            return [f"from {prefix}mc import C{b}" for b in needed]
-        return [f"from {prefix}{mods[b - 1]} import C{b}" for b in needed]
+        out = []
+        for b in needed:
+            out += from_import(f"{prefix}mc" if module == "md" else f"{prefix}{mods[b - 1]}", [f"C{b}"])
+        return out
     needed = sorted({b for c in range(1, n + 1) if mods[c - 1] == module for b in case["bases"][c - 1] if mods[b - 1] != module})
     if not needed:
         return []
     other = prefix + ("mb" if module == "ma" else "ma")
     if layout == "from":
-        return [f"from {other} import " + ", ".join(f"C{b}" for b in needed)]
+        return from_import(other, [f"C{b}" for b in needed])
     if layout == "as":
-        return [f"from {other} import " + ", ".join(f"C{b} as K{b}" for b in needed)]
+        return from_import(other, [f"C{b} as K{b}" for b in needed])
     if layout == "attr":
         return [f"import {other}"]
     if layout in ("chain", "chain2"):
-        return [f"from {prefix}{'mc' if layout == 'chain' else 'md'} import " + ", ".join(f"C{b}" for b in needed)]
+        return from_import(f"{prefix}{'mc' if layout == 'chain' else 'md'}", [f"C{b}" for b in needed])
     raise ValueError(layout)
 
 
@@ -94,7 +104,7 @@ def render(case: dict, prefix: str = "", guarded: bool = False) -> dict:
     out = {}
     present = {"one": ["ma"], "chain": ["mb", "mc", "ma"], "chain2": ["mb", "mc", "md", "ma"]}.get(case["layout"], ["mb", "ma"])
     for module in present:
-        lines = import_lines(case, module, prefix)
+        lines = import_lines(case, module, prefix, guarded)
         chunks = [class_chunk(case, c, prefix, guarded=guarded) for c in range(1, case["n"] + 1) if case["mods"][c - 1] == module]
         out[prefix + module] = "\n".join(lines) + ("\n\n" if lines else "") + "\n".join(chunks)
     # dependency order for loaders that import for real: mb, mc, md, ma
@@ -217,7 +227,9 @@ def class_view(k, mem: list) -> dict:
         out["mro"] = "ValueError"
         out["why"] = "cycle" if "cycle" in str(exc) else "merge"
     except RecursionError:
-        out["mro"] = "RecursionError"
+        # every other accessor recomputes the MRO and would hit the recursion limit again (slow): stop here
+        return {"mro": "RecursionError", "inh": "RecursionError", "declared": sorted(name for name in k.members if name in mem),
+                "all": "RecursionError", "item": {m: "RecursionError" for m in mem}}
     except Exception as exc:  # noqa: BLE001
         out["mro"] = type(exc).__name__
     try:
